@@ -597,6 +597,31 @@ def hand_cases():
   add("local-alias:assign:wrong-operator:update", ["s.in_ = InPort( Bits8 )", "s.out = OutPort( Bits8 )", "@update", "def up_al():", "  x = s.out", "  x <<= s.in_"], "UpdateBlockWriteError")
   add("local-alias:assign:wrong-operator:update_ff", ["s.in_ = InPort( Bits8 )", "s.out = OutPort( Bits8 )", "@update_ff", "def up_al():", "  x = s.out", "  x @= s.in_"], "UpdateFFBlockWriteError")
   add("local-alias:loop:wrong-operator:update", ["s.in_ = InPort( Bits8 )", "s.outs = [ OutPort( Bits8 ) for _ in range(2) ]", "@update", "def up_al():", "  for o_ in s.outs:", "    o_ <<= s.in_"], "UpdateBlockWriteError")
+  # other forms found by the fourth audit
+  add("placeholder:connect", ["s.in_ = InPort( Bits8 )", "s.out = OutPort( Bits8 )", "s.out //= s.in_"], "InvalidPlaceholderError", extra="class HandD_unused: pass\n")
+  C[-1] = (C[-1][0], C[-1][1].replace("class HandD( Component )", "class HandD( Component, Placeholder )"), C[-1][2], C[-1][3])
+  add("func-then-block-same-name", ["s.in_ = InPort( Bits8 )", "s.o1 = OutPort( Bits8 )", "s.o2 = OutPort( Bits8 )", "@s.func", "def f():", "  s.o1 @= 1", "@update", "def f():", "  s.o2 @= s.in_",
+      "@update", "def g():", "  s.o2 @= 0"], "UpblkFuncSameNameError")
+  add("block-then-func-same-name", ["s.in_ = InPort( Bits8 )", "s.o1 = OutPort( Bits8 )", "s.o2 = OutPort( Bits8 )", "@update", "def f():", "  s.o2 @= s.in_", "@s.func", "def f():", "  s.o1 @= 1"], "UpblkFuncSameNameError")
+  add("value-method:uint-clone(legal)", ["s.in_ = InPort( Bits8 )", "s.out = OutPort( Bits8 )", "s.o2 = OutPort( Bits8 )", "@update", "def up():", "  s.out @= s.in_.uint() + 1", "  s.o2 @= s.in_.clone()"], None)
+  add("value-method:to_bits(legal)", ["s.in_ = InPort( HSt )", "s.out = OutPort( Bits8 )", "@update", "def up():", "  s.out @= s.in_.to_bits()"], None)
+  add("value-method:second-writer", ["s.in_ = InPort( Bits8 )", "s.out = OutPort( Bits8 )", "@update", "def up():", "  s.out @= s.in_.uint() + 1", "@update", "def up2():", "  s.out @= 0"], "MultiWriterError")
+  add("bits-typed-index(legal)", ["s.in_ = InPort( Bits8 )", "s.out = OutPort( Bits8 )", "s.o1 = OutPort( Bits1 )", "idx = b3(2)", "lo = b4(2)", "hi = b4(4)",
+      "@update", "def up():", "  s.o1 @= s.in_[idx]", "  s.out @= 0", "  s.out[lo:hi] @= s.in_[0:2]"], None)
+  add("bits-typed-index:second-writer", ["s.in_ = InPort( Bits8 )", "s.out = OutPort( Bits8 )", "lo = b4(2)", "hi = b4(4)",
+      "@update", "def up():", "  s.out[lo:hi] @= s.in_[0:2]", "@update", "def up2():", "  s.out[3] @= 0"], "MultiWriterError")
+  add("lambda-text:else-default(legal)", ["s.in_ = InPort( Bits8 )", "s.out = OutPort( Bits8 )", "default = Bits8( 3 )", "s.out //= lambda: s.in_ if s.in_[0] else default"], None)
+  add("closure-name:second-writer", ["s.in_ = InPort( Bits8 )", "s.outs = [ OutPort( Bits8 ) for _ in range(2) ]", "outs = s.outs", "@update", "def up():", "  outs[0] @= s.in_", "  outs[1] @= 0",
+      "@update", "def up2():", "  s.outs[0] @= 1"], "MultiWriterError")
+  add("closure-name:wrong-operator", ["s.in_ = InPort( Bits8 )", "s.outs = [ OutPort( Bits8 ) for _ in range(2) ]", "outs = s.outs", "@update", "def up():", "  outs[0] <<= s.in_", "  outs[1] <<= 0"], "UpdateBlockWriteError")
+  for form, body in (("comprehension-read(legal)", ["  vs = [ p for p in s.ins ]", "  s.out @= vs[0] + vs[1]"]), ("list-display-loop", ["  for o_ in [ s.outs[0], s.outs[1] ]:", "    o_ @= s.in_"]),
+                     ("slice-of-list-loop", ["  for o_ in s.outs[0:2]:", "    o_ @= s.in_"]), ("conditional-expression", ["  x = s.outs[0] if s.in_[0] else s.outs[1]", "  y = s.outs[1] if s.in_[0] else s.outs[0]", "  x @= 1", "  y @= 0"]),
+                     ("loop-carried", ["  x = s.outs[1]", "  for k in range(2):", "    x @= s.in_", "    x = s.outs[0]", "  s.outs[1] @= 0" if False else "  pass"])):
+    decl = ["s.in_ = InPort( Bits8 )", "s.out = OutPort( Bits8 )", "s.outs = [ OutPort( Bits8 ) for _ in range(2) ]", "s.ins = [ InPort( Bits8 ) for _ in range(2) ]"]
+    if form.endswith("(legal)"):
+      add(f"local-alias2:{form}", decl + ["@update", "def up_al():"] + body, None)
+    else:
+      add(f"local-alias2:{form}:second-writer", decl + ["@update", "def up_al():"] + body + ["@update", "def up_two():", "  s.outs[0] @= 1"], "MultiWriterError")
   # index expressions: provably disjoint writes from two blocks
   add("index-expression:N-1", ["s.in_ = InPort( Bits8 )", "s.out = [ OutPort( Bits8 ) for _ in range(2) ]", "N = 2",
       "@update", "def up_a():", "  s.out[0] @= s.in_", "@update", "def up_b():", "  s.out[N-1] @= 0"], None)
